@@ -45,7 +45,7 @@ def setup():
 
 # ------------------------------------------------------------------------------------------ trees
 
-SHAPES = ["wide", "indep", "min", "lt", "scale", "shared", "lt_single", "lt_first_single", "lt_alloc", "lt_min", "lt_nested", "wchoose", "lt_wchoose", "mchoose", "alloc_cap"]
+SHAPES = ["wide", "indep", "min", "lt", "scale", "shared", "lt_single", "lt_first_single", "lt_alloc", "lt_min", "lt_nested", "lt_nested_left", "wchoose", "lt_wchoose", "mchoose", "alloc_cap"]
 
 
 def instances(tier):
@@ -57,7 +57,7 @@ def instances(tier):
             for disc in (1, 2) if quick else (1, 2, 3):
                 for variant in (0, 1, 2, 3) if quick else range(6):
                     for passes in ((0, 0), (1, 1)) if quick else ((0, 0), (1, 0), (0, 1), (1, 1)):
-                        if quick and (variant + disc + len(parts) + passes[0]) % 2 and shape not in ("lt", "lt_alloc", "lt_single", "lt_first_single"):
+                        if quick and (variant + disc + len(parts) + passes[0]) % 2 and shape not in ("lt", "lt_alloc", "lt_single", "lt_first_single", "lt_nested_left", "wchoose", "lt_wchoose"):
                             continue
                         out.append({"name": f"{shape}-p{''.join(map(str, parts))}-d{disc}-v{variant}-cp{passes[0]}purge{passes[1]}", "shape": shape, "parts": parts, "disc": disc,
                                     "variant": variant, "passes": list(passes)})
@@ -101,8 +101,9 @@ def make_tree(spec, fine=False):
             edges.append((m, choose(name, req, dur, s, util)))
         return m
 
-    def wchoose(name, req, dur, s0, s1, util):
-        return add("WCHOOSE", name=name, req=req, start=s0 * disc, dur=dur, end=s1 * disc, gran=g, util=util, parts=pids)
+    def wchoose(name, req, dur, s0, s1, util, off=0):
+        # off > 0: the window opens between two grid points (the first option is the next grid point)
+        return add("WCHOOSE", name=name, req=req, start=s0 * disc + (off if disc > 1 and not fine else 0), dur=dur, end=s1 * disc, gran=g, util=util, parts=pids)
 
     totalq = sum(P.values())
     reqA = 1 + (var % 2 if totalq > 1 else 0)
@@ -179,6 +180,14 @@ def make_tree(spec, fine=False):
         b = task("B", reqB, durB, [1, 2], 1)
         c = task("C", 1, durC, [2, 3, 4], 1)
         edges += [(lt2, b), (lt2, c), (lt1, a), (lt1, lt2), (root, lt1)]
+    elif shape == "lt_nested_left":
+        # LessThan(LessThan(a, b), c): c must start after b (the end of the inner expression), not merely after a
+        lt1 = add("LT", name="lt1")
+        lt2 = add("LT", name="lt2")
+        a = task("A", 1, 1, [0, 1], 1)
+        b = task("B", 1, durB + 1, [1, 2], 1)
+        c = task("C", 1, durC, [2, 3, 4, 5], 1)
+        edges += [(lt2, a), (lt2, b), (lt1, lt2), (lt1, c), (root, lt1)]
     elif shape == "scale":
         sc = add("SCALE", name="scale1", factor=3)
         a = task("A", reqA, durA, [0, 1], 1)
@@ -194,7 +203,7 @@ def make_tree(spec, fine=False):
     elif shape == "wchoose":
         n0 = now // disc
         m = add("MAX", name="max_A")
-        edges.append((m, wchoose("A", reqA, durA, n0, n0 + 2, 1)))
+        edges.append((m, wchoose("A", reqA, durA, n0, n0 + 2, 1, off=var % 2)))
         w = wchoose("B", reqB, durB, n0, n0 + 1, 2)
         c = add("ALLOC", name="C", start=0, dur=2 * disc, alloc={pids[-1]: 1})
         edges += [(root, m), (root, w), (root, c)]
@@ -203,7 +212,7 @@ def make_tree(spec, fine=False):
         lt = add("LT", name="lt1")
         a = wchoose("A", reqA, durA, n0, n0 + 1, 1)
         mb = add("MAX", name="max_B")
-        edges.append((mb, wchoose("B", reqB, durB, n0, n0 + 3, 1)))
+        edges.append((mb, wchoose("B", reqB, durB, n0, n0 + 3, 1, off=(var + 1) % 2)))
         edges += [(lt, a), (lt, mb), (root, lt)]
         c = task("C", 1, durC, [n0, n0 + 2], 1)
         edges.append((root, c))
